@@ -120,6 +120,12 @@ impl CodeCache {
     let mut block_ended = false;
     let mut index = ip;
     while !block_ended {
+      // A block is cached under the region (and bank) of its first
+      // instruction: do not let it run on from the fixed bank into the
+      // switchable one. The next block starts at the boundary.
+      if index != ip && (index < 0x4000) != (ip < 0x4000) {
+        break;
+      }
       let code_slice = self.get_executable_memory_segment(index, mem);
       if code_slice.len() < 1 {
         break;
